@@ -70,25 +70,25 @@ static const cfg_t cfgs[] = {
     /* ------------------------------------------------------------ quick */
     { "ev8 set||wait||wait: X.set | U0.wait | U1.wait", 1, EVENTUAL, 8, 0, 3,
       { A(K_X, SET(1)), A(K_U0, WAIT), A(K_U1, WAIT) } },
+    { "fut2+cb: U0.set | U1.set | X.set | M.wait", 1, FUTURE, 2, 1, 4,
+      { A(K_U0, SET(1)), A(K_U1, SET(2)), A(K_X, SET(3)), A(K_M, WAIT) } },
     { "ev8 wait||set||set: U0.wait | U1.set | X.set", 1, EVENTUAL, 8, 0, 3,
       { A(K_U0, WAIT), A(K_U1, SET(1)), A(K_X, SET(2)) } },
+    { "fut1+cb: X.set | U0.wait | U1.test,test", 1, FUTURE, 1, 1, 3,
+      { A(K_X, SET(1)), A(K_U0, WAIT), A(K_U1, TEST, TEST) } },
     { "ev8 test||set: X.wait | T1.set | M.test,test", 1, EVENTUAL, 8, 0, 3,
       { A(K_X, WAIT), A(K_T1, SET(1)), A(K_M, TEST, TEST) } },
+    { "fut3+cb: U1.set,set | X.set,set | U0.wait,test", 1, FUTURE, 3, 1, 3,
+      { A(K_U1, SET(1), SET(2)), A(K_X, SET(3), SET(4)),
+        A(K_U0, WAIT, TEST) } },
     { "ev0 M.wait | X.set | T1.set", 1, EVENTUAL, 0, 0, 3,
       { A(K_X, SET(1)), A(K_T1, SET(2)), A(K_M, WAIT) } },
+    { "fut0+cb: X.set(fails) | U1.wait,test", 1, FUTURE, 0, 1, 2,
+      { A(K_X, SET(1)), A(K_U1, WAIT, TEST) } },
     { "ev8 epochs: U1.wait,reset,wait | X.set,(gate)set | U0.wait", 1,
       EVENTUAL, 8, 0, 3,
       { A(K_U1, WAIT, RESET, FLAG(0), WAIT), A(K_X, SET(1), GATE(0), SET(2)),
         A(K_U0, WAIT) } },
-    { "fut2+cb: U0.set | U1.set | X.set | M.wait", 1, FUTURE, 2, 1, 4,
-      { A(K_U0, SET(1)), A(K_U1, SET(2)), A(K_X, SET(3)), A(K_M, WAIT) } },
-    { "fut1+cb: X.set | U0.wait | U1.test,test", 1, FUTURE, 1, 1, 3,
-      { A(K_X, SET(1)), A(K_U0, WAIT), A(K_U1, TEST, TEST) } },
-    { "fut3+cb: U1.set,set | X.set,set | U0.wait,test", 1, FUTURE, 3, 1, 3,
-      { A(K_U1, SET(1), SET(2)), A(K_X, SET(3), SET(4)),
-        A(K_U0, WAIT, TEST) } },
-    { "fut0+cb: X.set(fails) | U1.wait,test", 1, FUTURE, 0, 1, 2,
-      { A(K_X, SET(1)), A(K_U1, WAIT, TEST) } },
     /* --------------------------------------------------------- thorough */
     { "ev8 setter resets: X.set,reset,set | U0.wait | U1.test", 0, EVENTUAL, 8,
       0, 3,
